@@ -694,7 +694,18 @@ def bounded_total(label):
                 res.fail(f'{label}/every_line_is_answered', dict(scenario='managesieve literal+ text ending like a literal announcement',
                                                                   tail=repr(tail)), [e])
         # messages expunged by another session, fetched by a session that has not been told yet (dict and maildir)
-        from .e2e_wellformed import expunged_scenario
+        from .e2e_wellformed import expunged_scenario, expunged_first_command_scenario, FIRST_AFTER_EXPUNGE
+        for backend in ('dict', '++'):
+            for line in FIRST_AFTER_EXPUNGE:
+                try:
+                    errs = run(expunged_first_command_scenario(backend, line))
+                except Exception as exc:    # noqa
+                    errs = [f'harness exception {exc!r}']
+                res.evaluations += 1
+                res.distinct.add(('first-after-expunge', backend, line))
+                for e in errs[:1]:
+                    res.fail(f'{label}/connection_task_never_dies_of_an_exception',
+                             dict(scenario='first command after another session expunged the messages', backend=backend, line=line.decode()), [e])
         for backend in ('dict', '++', 'fs'):
             try:
                 errs, n = run(expunged_scenario(backend))
